@@ -884,6 +884,7 @@ fn collect_once(rt: &Rc<InstRt>, ctx: &Rc<Ctx>, consume: bool) {
     let mut o = rt.o.borrow_mut();
     let pending_before = o.own_err_after_fault;
     let polls_before = o.polls;
+    let at_before = o.own_after_fault_at.len();
     let (ok_items, ret) = match r {
         Ok(Ok(n)) => {
             if o.user_err_seen && n > 0 {
@@ -905,6 +906,9 @@ fn collect_once(rt: &Rc<InstRt>, ctx: &Rc<Ctx>, consume: bool) {
         Ok(Err(e)) => (None, judge_err(rt, ctx, &e, &mut o)),
         Err(p) => (None, handle_panic(rt, ctx, &mut o, p)),
     };
+    // a collect swallows an unknown number of items before its error: the position recorded by
+    // judge_err means nothing here (the post-run comparison with a next()-driven run covers it)
+    o.own_after_fault_at.truncate(at_before);
     if consume {
         // The iterator is gone. If what came back is an error of the solver itself although a
         // fault has fired, nobody can poll on to see whether the user's error would follow: the
@@ -2000,9 +2004,12 @@ fn execute_inner(spec: &RunSpec, budgets: &[Budget], opts: &ExecOpts) -> RunResu
             for (pos, class) in at {
                 let same = match items.get((pos as usize).wrapping_sub(1)) {
                     Some(ItemRec::Err(c, _)) => *c == class,
-                    // the fault-free run was not driven that far: no verdict
-                    None => true,
-                    _ => false,
+                    // the fault-free run yields a point where the faulty one has the error
+                    Some(ItemRec::Ok(_)) => false,
+                    // the fault-free run was not driven that far, or its poll at that place was
+                    // cut short by the call budget (without the fault the solver may go on
+                    // computing for a long time), or it ended there: no verdict
+                    Some(ItemRec::None) | None => true,
                 };
                 if !same {
                     ctx.violate(
